@@ -86,6 +86,12 @@ def enc_for(T, v, shape):
     return [(n, T["enc"][(v, n)]) for n in refine(shape, keys)]
 
 
+def val_for(T, v, shape):
+    """validator entries for value variant v under schema shape `shape`: list of (shape name, entry)"""
+    keys = [k[1] for k in T["val"] if k[0] == v]
+    return [(n, T["val"][(v, n)]) for n in refine(shape, keys)]
+
+
 def tables(prog):
     if id(prog) in _cache:
         return _cache[id(prog)]
